@@ -205,11 +205,13 @@ type cfgKnobs struct {
 	Replacement string
 	Modulus     int
 	RelPaths    bool // relative file paths (file SD, rule files)
+	WriteRegex  string
+	AlertRegex  string
 }
 
 func baseKnobs() cfgKnobs {
 	return cfgKnobs{Interval: "15s", ExtLabel: "c1", JobPath: "/metrics", Regex: "prod|dev", RegexAction: "keep", MetricRegex: "go_.*",
-		Password: "pw1", Bearer: "tok1", SDTarget: "10.0.0.1:80", SDRefresh: "30s", RWUrl: "http://rw/api", Replacement: "$1", Modulus: 4}
+		Password: "pw1", Bearer: "tok1", SDTarget: "10.0.0.1:80", SDRefresh: "30s", RWUrl: "http://rw/api", Replacement: "$1", Modulus: 4, WriteRegex: "tmp_.*", AlertRegex: "info|debug"}
 }
 
 func (k cfgKnobs) yaml(style int) string {
@@ -249,6 +251,8 @@ func (k cfgKnobs) yaml(style int) string {
 		job("j2")
 	}
 	fmt.Fprintf(&b, "remote_write:\n- url: %s\n  bearer_token: %s\n", k.RWUrl, k.Bearer)
+	fmt.Fprintf(&b, "  write_relabel_configs:\n  - source_labels: [__name__]\n    regex: '%s'\n    action: drop\n", k.WriteRegex)
+	fmt.Fprintf(&b, "alerting:\n  alert_relabel_configs:\n  - source_labels: [severity]\n    regex: '%s'\n    action: drop\n", k.AlertRegex)
 	if style == 1 {
 		b.WriteString("\n# trailing comment\n")
 	}
@@ -278,6 +282,8 @@ func cfgEdits() []cfgEdit {
 		{"added job", func(k *cfgKnobs) { k.SecondJob = true }, true},
 		{"replacement", func(k *cfgKnobs) { k.Replacement = "x$1" }, true},
 		{"hashmod modulus", func(k *cfgKnobs) { k.Modulus = 5 }, true},
+		{"write relabel regex", func(k *cfgKnobs) { k.WriteRegex = "tmp_[a-z]+" }, true},
+		{"alert relabel regex", func(k *cfgKnobs) { k.AlertRegex = "info" }, true},
 		{"external label", func(k *cfgKnobs) { k.ExtLabel = "c2" }, false},
 	}
 }
@@ -305,7 +311,7 @@ func cfgHashChild(file string) int {
 
 func runCfgHash(a Args) *Result {
 	res := newResult("cfghash", a.seed, a.tier)
-	res.Rule = "a base configuration (global, two-rule relabeling, metric relabeling, basic auth, static + file SD, remote write with bearer token) under random knob settings; for each: every single-setting edit of the catalogue (scalars, list entries, regexes incl. anchoring-only changes, secrets, SD options, added job), three re-formattings and an external-label edit; the parsed config is dumped by reflection (unexported fields included) and the Lean model of hashstructure must reproduce ConfigHash; every configuration is also loaded from files in two different directories (relative file paths in half of them), every 4th is also hashed in a child process; non-trivial = an edit pair; distinct by configuration text"
+	res.Rule = "a base configuration (global, two-rule relabeling, metric relabeling, basic auth, static + file SD, remote write with bearer token and write-relabel rule, alert relabel rule) under random knob settings; for each: every single-setting edit of the catalogue (scalars, list entries, regexes incl. anchoring-only changes, secrets, SD options, added job), three re-formattings and an external-label edit; the parsed config is dumped by reflection (unexported fields included) and the Lean model of hashstructure must reproduce ConfigHash; every configuration is also loaded from files in two different directories (relative file paths in half of them), every 4th is also hashed in a child process; non-trivial = an edit pair; distinct by configuration text"
 	rng := NewRng(a.seed)
 	n := 6
 	if a.tier == "thorough" {
